@@ -28,8 +28,9 @@ import traceback
 
 VERIF = os.path.dirname(os.path.dirname(os.path.abspath(__file__)))
 EVID = os.path.join(VERIF, "evidence")
-if os.environ.get("VERIF_SRC") and os.path.realpath(os.environ["VERIF_SRC"]) != "/repo/src":
-    # runs against a scratch tree (mutation self-test) must never touch the registered evidence
+if (os.environ.get("VERIF_SRC") and os.path.realpath(os.environ["VERIF_SRC"]) != "/repo/src") or os.environ.get("VERIF_ONLY"):
+    # runs against a scratch tree (mutation self-test) or on a development subset of the jobs (VERIF_ONLY) must
+    # never touch the registered evidence
     EVID = os.environ.get("VERIF_EVID", os.path.join(VERIF, ".cache", "evidence-scratch"))
 REPLAYS = os.path.join(EVID, "replays")
 KNOWN = os.path.join(VERIF, "known_findings.json")
@@ -286,7 +287,8 @@ def main_check(modname, tier, seed):
 def _merge_cross(results):
     n = sum((r.get("cross_check") or {}).get("checked", 0) for r in results)
     a = sum((r.get("cross_check") or {}).get("agree", 0) for r in results)
-    return {"cvc5_checked": n, "agree": a}
+    i = sum((r.get("cross_check") or {}).get("inconclusive", 0) for r in results)
+    return {"cvc5_checked": n, "agree": a, "cvc5_timeout_or_unsupported": i}
 
 
 def _z3_version():
